@@ -16,6 +16,8 @@ impl FilterExecutor {
             let batch = batch?;
             let vis = match Evaluator::new(&self.condition).eval(&batch)? {
                 ArrayImpl::Bool(a) => a,
+                // a condition that is the NULL literal selects no row
+                ArrayImpl::Null(_) => continue,
                 _ => panic!("filters can only accept bool array"),
             };
             yield batch.filter(vis.true_array());
